@@ -1,12 +1,14 @@
 CONSTANTS
   Dev = {}
+  Mut = {}
+  AdvOn = {"ANS", "DS", "DNSKEY"}
   AnchorForms = {"ds", "add_u8", "reader", "multi", "both", "none", "elsewhere"}
   Cfgs = {"default"}
   MaxRuns = 1
   EntQKinds = {"positive"}
   Budget = 1
   Shapes = {"secure3", "insecure3"}
-  Denials = {"nsec", "nsec3"}
+  Denials = {"nsec"}
   QKinds = {"positive", "nxdomain"}
   AdvActs = {"DropRrsig", "DropRrset", "Expire", "AddCollidingKey", "AddExtraDs", "CorruptSigOctets", "AddBadSig", "CorruptKey", "CorruptDs", "StripProof", "SigsFirst", "Duplicate", "ZeroCounts"}
 SPECIFICATION Spec
